@@ -163,3 +163,72 @@ func ZZH7Numbers() {
 }
 
 func rDigitB(c byte) bool { return sym.And(c >= '0', c <= '9') }
+
+// ZZH7Pair: two literals in one program - a quoted string of <= K1 content
+// bytes and a backtick string of <= K2 bytes, in either order - keep their
+// values in compact and pretty output: what one literal contains (a quote
+// character of another style, a backtick, a backslash) must not change how
+// the text around the other is treated by the output passes.
+func ZZH7Pair() {
+	K1 := sym.Param("K1", 2)
+	K2 := sym.Param("K2", 2)
+	n1 := sym.Choose("len1", K1+1)
+	q := []byte{'"', '\''}[sym.Choose("quote", 2)]
+	b1 := sym.String("s", n1)
+	for i := 0; i < n1; i++ {
+		sym.Assume(b1[i] < 0x80)
+	}
+	lit1 := string([]byte{q}) + b1 + string([]byte{q})
+	sym.Assume(rStringEnd(lit1, 0) == len(lit1))
+	want1, ok := RStringValue(b1, false)
+	sym.Assume(ok)
+	n2 := sym.Choose("len2", K2+1)
+	b2 := sym.String("t", n2)
+	for i := 0; i < n2; i++ {
+		sym.Assume(b2[i] < 0x80)
+		if i+1 < n2 {
+			sym.Assume(sym.Not(sym.And(b2[i] == '$', b2[i+1] == '{')))
+		}
+	}
+	lit2 := "`" + b2 + "`"
+	toks0 := RScan(lit2)
+	sym.Assume(len(toks0) == 2 && toks0[0].Kind == RTemplate && len(toks0[0].Text) == len(lit2))
+	want2, ok2 := RStringValue(b2, true)
+	sym.Assume(ok2)
+	first := sym.Choose("order", 2) == 0
+	src := "x=" + lit1 + ";y=" + lit2 + ";"
+	if !first {
+		src = "y=" + lit2 + ";x=" + lit1 + ";"
+	}
+	pretty := sym.Bool("pretty")
+	code, accepted := compileText(src, pretty)
+	sym.Observe("pair", src, code, accepted, pretty)
+	sym.Assert(accepted, "valid-literals-accepted")
+	if !accepted {
+		return
+	}
+	toks := RScan(code)
+	si, ti := 2, 6
+	if !first {
+		si, ti = 6, 2
+	}
+	shape := len(toks) == 9 && toks[1].Text == "=" && toks[3].Text == ";" && toks[5].Text == "=" && toks[7].Text == ";" &&
+		toks[si].Kind == RString && toks[ti].Kind == RTemplate
+	sym.Assert(shape, "emitted-text-is-two-literal-statements")
+	if !shape {
+		return
+	}
+	o1 := toks[si].Text
+	got1, g1 := RStringValue(o1[1:len(o1)-1], false)
+	sym.Assert(g1, "emitted-string-literal-is-valid")
+	if g1 {
+		sym.Assert(sameUnits(got1, want1), "string-literal-value-preserved")
+	}
+	o2 := toks[ti].Text
+	got2, g2 := RStringValue(o2[1:len(o2)-1], true)
+	sym.Assert(g2, "emitted-template-string-is-valid")
+	if g2 {
+		sym.Assert(sameUnits(got2, want2), "template-string-value-preserved")
+	}
+	sym.Cover("end")
+}
